@@ -1,3 +1,3 @@
 From Coq Require Import ExtrOcamlBasic.
-From OBB Require Import Model.TdmaSched.
-Extraction "model.ml" w_c08_run w_c08_runsp.
+From OBB Require Import Model.TdmaSched Model.SchedGsmtime.
+Extraction "model.ml" w_c08_run w_c08_runsp w_c08_gsm.
